@@ -321,7 +321,7 @@ func TestC08New(t *testing.T) {
 			data[c.Name] = c.data()
 		}
 		var order []string
-		orderKind := rapid.SampledFrom([]string{"absent", "absent", "perm", "perm", "unknown", "short", "long"}).Draw(t, "orderkind")
+		orderKind := rapid.SampledFrom([]string{"absent", "absent", "perm", "perm", "unknown", "short", "long", "repeat", "longrepeat"}).Draw(t, "orderkind")
 		colNames := make([]string, ncols)
 		for i, c := range cols {
 			colNames[i] = c.Name
@@ -341,6 +341,23 @@ func TestC08New(t *testing.T) {
 		case "long":
 			order = append(rapid.Permutation(colNames).Draw(t, "order"), "extra")
 			reject = append(reject, "ColumnOrder too long")
+		case "repeat":
+			// every entry is a known name and the length fits, but one column is named twice and another not at all: a frame
+			// in that "order" cannot hold exactly the supplied values
+			if ncols > 1 {
+				order = rapid.Permutation(colNames).Draw(t, "order")
+				a := rapid.IntRange(0, ncols-1).Draw(t, "repa")
+				b := rapid.IntRange(0, ncols-2).Draw(t, "repb")
+				if b >= a {
+					b++
+				}
+				order[a] = order[b]
+				reject = append(reject, "ColumnOrder names a column twice")
+			}
+		case "longrepeat":
+			order = rapid.Permutation(colNames).Draw(t, "order")
+			order = append(order, order[rapid.IntRange(0, ncols-1).Draw(t, "repc")])
+			reject = append(reject, "ColumnOrder names a column twice (too long)")
 		}
 		// lengths: all supported columns must have equal length
 		lens := map[int]bool{}
